@@ -1,5 +1,6 @@
 import PercevalModel.Proto
 import PercevalModel.Model.C01
+import PercevalModel.Model.C01Reg
 
 open Lean PM PM.Proto PM.C01
 
@@ -39,7 +40,7 @@ def matOfTables (k : ℕ) (tabs : Array (Array (Array GQ))) : Matrix (Fin k) (Fi
 def checkRows (k : ℕ) (rows : Array (Array GQ)) : Except String Unit :=
   if rows.size ≠ k ∨ rows.any (·.size ≠ k) then throw "bad leaf matrix" else pure ()
 
-def evalOut (w : World ℕ GQ) (i : ℕ) : Json :=
+def evalOut {E : Type} (w : World E GQ) (i : ℕ) : Json :=
   let u := observeV w i
   let rows := u.toArray.map (·.toArray)
   let flat := (flatten (snapshot w.heap i)).map fun p => Json.arr #[toJson p.1, toJson p.2.1]
@@ -97,7 +98,115 @@ def handleHist (j : Json) : Except String Json := do
     outs := outs.push o
   return Json.mkObj [("out", Json.arr outs)]
 
+/-! ### histories of the registry machine (`RState ℕ GQ`: parameter values are numbered) -/
+
+def varsToJson (vs : List Var) : Json :=
+  Json.arr (vs.map fun v => Json.arr #[toJson v.pid, toJson v.name]).toArray
+
+def optNat (j : Json) : Except String (Option ℕ) :=
+  if j.isNull then pure none else do pure (some (← j.getNat?))
+
+def pairList (j : Json) : Except String (List (ℕ × ℕ)) := do
+  let arr ← j.getArr?
+  arr.toList.mapM fun p => do
+    let a ← p.getArr?
+    if a.size ≠ 2 then throw "pair expected"
+    pure ((← a[0]!.getNat?), (← a[1]!.getNat?))
+
+def outcomeStr : Outcome → String
+  | .ok => "ok"
+  | .assertion => "assertion"
+  | .runtime => "runtime"
+  | .key => "key"
+
+/-- the matrix of a leaf as a function of the store: a table indexed by the values of its slots -/
+def tableLeaf (k : ℕ) (slots : List Var) (tab : List (List (Option ℕ) × Array (Array GQ))) :
+    Matrix (Fin k) (Fin k) (PEnv ℕ → GQ) :=
+  fun a b e =>
+    match tab.find? (fun t => t.1 == slots.map fun v => e v.pid) with
+    | some t => (t.2.getD a.val #[]).getD b.val 0
+    | none => 0
+
+def rlook (s : RState ℕ GQ) (i : ℕ) : List (String × Json) :=
+  [("reg", varsToJson (s.reg i)), ("occ", varsToJson (s.occ i)), ("defined", toJson (s.definedReg i)),
+   ("env", Json.arr ((List.range s.next).map fun p =>
+      match s.w.env p with
+      | some x => toJson x
+      | none => Json.null).toArray)]
+
+def rhistStep (names : Array ℕ) (s : RState ℕ GQ) (op : Json) : Except String (RState ℕ GQ × Json) := do
+  let var (p : ℕ) : Except String Var :=
+    if p < names.size then pure ⟨p, names[p]!⟩ else throw "unknown parameter"
+  let fin (r : RState ℕ GQ × Outcome) (i : ℕ) : Except String (RState ℕ GQ × Json) :=
+    pure (r.1, Json.mkObj ([("st", Json.str (outcomeStr r.2))] ++ rlook r.1 i))
+  let ranked (i j : ℕ) : Except String Unit :=
+    if i < s.size ∧ j < s.size ∧ ¬ (s.w.heap.rank j < s.w.heap.rank i) then
+      throw "rank discipline violated (harness error)" else pure ()
+  if let .ok m := natOf op "new" then
+    fin (rstep s (.new m (← natOf op "rank"))) s.size
+  else if let .ok i := natOf op "leaf" then
+    let off ← natOf op "off"
+    let k ← natOf op "k"
+    let slots ← (← natList (← op.getObjVal? "slots")).mapM var
+    let tabJ ← arrOf op "tab"
+    let tab ← tabJ.toList.mapM fun t => do
+      let key ← (← arrOf t "at").toList.mapM optNat
+      let rows ← gqRows (← t.getObjVal? "U")
+      checkRows k rows
+      if key.length ≠ slots.length then throw "table key length"
+      pure (key, rows)
+    fin (rstep s (.leaf i off k slots (tableLeaf k slots tab))) i
+  else if let .ok i := natOf op "nest" then
+    let j ← natOf op "j"
+    ranked i j
+    fin (rstep s (.nest i j (← natOf op "off"))) i
+  else if let .ok i := natOf op "merge" then
+    let j ← natOf op "j"
+    ranked i j
+    fin (rstep s (.merge i j (← natOf op "off"))) i
+  else if let .ok i := natOf op "barrier" then
+    fin (rstep s (.barrier i)) i
+  else if let .ok i := natOf op "copy" then
+    let subs ← pairList (← op.getObjVal? "subs")
+    let σ : ℕ → Option ℕ := fun n => (subs.find? (fun p => p.1 == n)).map (·.2)
+    if i < s.size then
+      let r := rstep s (.copy i σ)
+      fin r (if r.2 = .ok then s.size else i)
+    else throw "copy of an unknown entry"
+  else if let .ok p := natOf op "setv" then
+    let x ← optNat (← op.getObjVal? "x")
+    pure ((rstep s (.setv p x)).1, Json.mkObj [("st", Json.str "ok")])
+  else if let .ok i := natOf op "assign" then
+    let a ← pairList (← op.getObjVal? "a")
+    if i < s.size then fin (rstep s (.assign i a)) i else throw "assign on an unknown entry"
+  else if let .ok i := natOf op "eval" then
+    if i < s.size then
+      if s.evalOk i then
+        let o := evalOut s.w i
+        pure (s, Json.mkObj ([("st", Json.str "ok"), ("out", o)] ++ rlook s i))
+      else pure (s, Json.mkObj ([("st", Json.str "assertion")] ++ rlook s i))
+    else throw "eval of an unknown entry"
+  else throw "unknown operation"
+
+def handleRHist (j : Json) : Except String Json := do
+  let ops ← arrOf j "rhist"
+  let names := (← natList (← j.getObjVal? "names")).toArray
+  let init ← (← arrOf j "init").toList.mapM optNat
+  let env : PEnv ℕ := fun p => (init.getD p none)
+  let mut s : RState ℕ GQ := RState.empty env names.size
+  let mut outs : Array Json := #[]
+  for op in ops do
+    let (s', o) ← rhistStep names s op
+    s := s'
+    outs := outs.push o
+  return Json.mkObj [("out", Json.arr outs)]
+
 def handle (j : Json) : Json :=
+  if (j.getObjVal? "rhist").isOk then
+    match handleRHist j with
+    | .error e => errJson e
+    | .ok r => r
+  else
   if (j.getObjVal? "hist").isOk then
     match handleHist j with
     | .error e => errJson e
